@@ -182,13 +182,14 @@ def spec_ite(ex, st, c, a, b):
     return ite(to_z3(truthy(c)), a, b)
 
 
-def spec_old(ex, st, name):
-    raise Unsupported('old() takes a variable name string')
-
-
 def spec_isinf(ex, st, v):
     v = to_xreal(v)
     return v.pinf
+
+
+def spec_isneginf(ex, st, v):
+    v = to_xreal(v)
+    return v.ninf
 
 
 def spec_finite(ex, st, v):
@@ -196,8 +197,19 @@ def spec_finite(ex, st, v):
     return band(bnot(v.pinf), bnot(v.ninf))
 
 
-SPEC_BUILTINS = {'forall': spec_forall, 'exists': spec_exists, 'implies': spec_implies, 'iff': spec_iff,
-                 'ite': spec_ite, 'isinf': spec_isinf, 'finite': spec_finite}
+def spec_old(ex, st, clo):
+    """old(lambda: expr): expr evaluated with the heap / buffers of the function entry and the current variables"""
+    s = st.copy()
+    s.heap = dict(ex.entry.heap)
+    s.store = dict(ex.entry.store)
+    for k, v in st.heap.items():          # fields first touched after entry: their initial symbolic array
+        if k not in s.heap:
+            s.heap[k] = ex.initial_field(st, k)
+    return ex.eval(clo.node.body, s)
+
+
+SPEC_BUILTINS = {'old': spec_old, 'forall': spec_forall, 'exists': spec_exists, 'implies': spec_implies, 'iff': spec_iff,
+                 'ite': spec_ite, 'isinf': spec_isinf, 'finite': spec_finite, 'isneginf': spec_isneginf}
 
 
 # ------------------------------------------------------------------------------------------------
@@ -775,6 +787,10 @@ def call_method(ex, st, obj, name, args, kwargs, node):
             return Opaque('joined-string', args[0])
         if name == 'format':
             return Opaque('formatted-string')
+    if isinstance(obj, Record):
+        if name in obj.attrs:
+            v = obj.attrs[name]
+            return v(ex, st, *args, **kwargs) if callable(v) else v
     if isinstance(obj, OptVal) and isinstance(obj.some, ObjRef):
         raise Unsupported('method %s on optional object' % name)
     raise Unsupported('method %s of %r at line %s' % (name, obj, getattr(node, 'lineno', '?')))
